@@ -40,6 +40,11 @@ def prepare(modules):
         shutil.rmtree(root)
     os.makedirs(root)
     subprocess.run(['rsync', '-a', '--exclude', 'target', '--exclude', '.git', REPO + '/', root + '/'], check=True)
+    # pristine copies of the files harness modules get attached to (the working tree may change while a long run is going)
+    for m, (pkg, src) in MODULES.items():
+        if os.path.exists(os.path.join(root, src)):
+            os.makedirs(os.path.dirname(os.path.join(root, '.pristine', src)), exist_ok=True)
+            shutil.copyfile(os.path.join(root, src), os.path.join(root, '.pristine', src))
     return root
 
 
@@ -48,8 +53,8 @@ def attach(root, mod):
     longer compiles against a changed tree then leaves the other modules' harnesses decidable"""
     for m, (pkg, src) in MODULES.items():
         dst = os.path.join(root, src)
-        if os.path.exists(os.path.join(REPO, src)):
-            shutil.copyfile(os.path.join(REPO, src), dst)
+        if os.path.exists(os.path.join(root, '.pristine', src)):
+            shutil.copyfile(os.path.join(root, '.pristine', src), dst)
     pkg, src = MODULES[mod]
     hp = os.path.join(VERIF, 'kani', mod)
     with open(os.path.join(root, src), 'a') as f:
